@@ -1132,4 +1132,49 @@ theorem efjc_distance_hasDerivAt (f Lp Lc St kT : ℝ) (hf : 0 < f) (hLp : 0 < L
   efjc_distance_hasDerivAt_aux f Lp Lc St kT hf hLp hkT hSt hx
 example : (0:ℝ) < 5 ∧ (5:ℝ) * (2 * 1.4 / 4.11) < 300 := by norm_num
 
+/-! ## Deepening round D: eFJC and tWLC Jacobian rows w.r.t. the parameters -/
+
+/-- the four rows of `efjc_distance_jac` are `∂/∂L_p, ∂/∂L_c, ∂/∂S_t, ∂/∂kT` of `efjc_distance` below the code's
+    overflow guard (`2 f L_p / kT < 300`; above it the code replaces `1/sinh²` by 0 and `coth` by 1) -/
+theorem efjc_distance_jac (f Lp Lc St kT : ℝ) (hf : 0 < f) (hLp : 0 < Lp) (hkT : 0 < kT) (hSt : 0 < St)
+    (hx : f * (2 * Lp / kT) < 300) :
+    (efjcDistanceJac f Lp Lc St kT).length = 4 ∧
+    HasDerivAt (fun Lp => efjcDistance f Lp Lc St kT) ((efjcDistanceJac f Lp Lc St kT).getD 0 0) Lp ∧
+    HasDerivAt (fun Lc => efjcDistance f Lp Lc St kT) ((efjcDistanceJac f Lp Lc St kT).getD 1 0) Lc ∧
+    HasDerivAt (fun St => efjcDistance f Lp Lc St kT) ((efjcDistanceJac f Lp Lc St kT).getD 2 0) St ∧
+    HasDerivAt (fun kT => efjcDistance f Lp Lc St kT) ((efjcDistanceJac f Lp Lc St kT).getD 3 0) kT :=
+  ⟨rfl, efjc_jac_Lp f Lp Lc St kT hf hLp hkT hSt hx, efjc_jac_Lc f Lp Lc St kT, efjc_jac_St f Lp Lc St kT hSt,
+   efjc_jac_kT f Lp Lc St kT hf hLp hkT hSt hx⟩
+example : (0:ℝ) < 5 ∧ (5:ℝ) * (2 * 1.4 / 4.11) < 300 := by norm_num
+
+/-- the eight rows of `twlc_distance_jac` are the partial derivatives of `twlc_distance` w.r.t.
+    `L_p, L_c, S_t, C, g0, g1, F_c, kT` on either side of the kink `f = F_c`, inside the validity range
+    (`C S_t ≠ g²`, `g ≠ 0` where the code divides by `g`); in particular the `F_c` row is `0` above the kink -/
+theorem twlc_distance_jac (f Lp Lc St C g0 g1 Fc kT : ℝ) (hf : 0 < f) (hLp : 0 < Lp) (hkT : 0 < kT) :
+    (twlcDistanceJac f Lp Lc St C g0 g1 Fc kT).length = 8 ∧
+    (Fc < f → C * St - (g0 + g1 * f) * (g0 + g1 * f) ≠ 0 → g0 + g1 * f ≠ 0 →
+      HasDerivAt (fun v => twlcDistance f v Lc St C g0 g1 Fc kT) ((twlcDistanceJac f Lp Lc St C g0 g1 Fc kT).getD 0 0) Lp ∧
+      HasDerivAt (fun v => twlcDistance f Lp v St C g0 g1 Fc kT) ((twlcDistanceJac f Lp Lc St C g0 g1 Fc kT).getD 1 0) Lc ∧
+      HasDerivAt (fun v => twlcDistance f Lp Lc v C g0 g1 Fc kT) ((twlcDistanceJac f Lp Lc St C g0 g1 Fc kT).getD 2 0) St ∧
+      HasDerivAt (fun v => twlcDistance f Lp Lc St v g0 g1 Fc kT) ((twlcDistanceJac f Lp Lc St C g0 g1 Fc kT).getD 3 0) C ∧
+      HasDerivAt (fun v => twlcDistance f Lp Lc St C v g1 Fc kT) ((twlcDistanceJac f Lp Lc St C g0 g1 Fc kT).getD 4 0) g0 ∧
+      HasDerivAt (fun v => twlcDistance f Lp Lc St C g0 v Fc kT) ((twlcDistanceJac f Lp Lc St C g0 g1 Fc kT).getD 5 0) g1 ∧
+      HasDerivAt (fun v => twlcDistance f Lp Lc St C g0 g1 v kT) ((twlcDistanceJac f Lp Lc St C g0 g1 Fc kT).getD 6 0) Fc ∧
+      HasDerivAt (fun v => twlcDistance f Lp Lc St C g0 g1 Fc v) ((twlcDistanceJac f Lp Lc St C g0 g1 Fc kT).getD 7 0) kT) ∧
+    (f < Fc → C * St - (g0 + g1 * Fc) * (g0 + g1 * Fc) ≠ 0 → g0 + g1 * Fc ≠ 0 →
+      HasDerivAt (fun v => twlcDistance f v Lc St C g0 g1 Fc kT) ((twlcDistanceJac f Lp Lc St C g0 g1 Fc kT).getD 0 0) Lp ∧
+      HasDerivAt (fun v => twlcDistance f Lp v St C g0 g1 Fc kT) ((twlcDistanceJac f Lp Lc St C g0 g1 Fc kT).getD 1 0) Lc ∧
+      HasDerivAt (fun v => twlcDistance f Lp Lc v C g0 g1 Fc kT) ((twlcDistanceJac f Lp Lc St C g0 g1 Fc kT).getD 2 0) St ∧
+      HasDerivAt (fun v => twlcDistance f Lp Lc St v g0 g1 Fc kT) ((twlcDistanceJac f Lp Lc St C g0 g1 Fc kT).getD 3 0) C ∧
+      HasDerivAt (fun v => twlcDistance f Lp Lc St C v g1 Fc kT) ((twlcDistanceJac f Lp Lc St C g0 g1 Fc kT).getD 4 0) g0 ∧
+      HasDerivAt (fun v => twlcDistance f Lp Lc St C g0 v Fc kT) ((twlcDistanceJac f Lp Lc St C g0 g1 Fc kT).getD 5 0) g1 ∧
+      HasDerivAt (fun v => twlcDistance f Lp Lc St C g0 g1 v kT) ((twlcDistanceJac f Lp Lc St C g0 g1 Fc kT).getD 6 0) Fc ∧
+      HasDerivAt (fun v => twlcDistance f Lp Lc St C g0 g1 Fc v) ((twlcDistanceJac f Lp Lc St C g0 g1 Fc kT).getD 7 0) kT) :=
+  ⟨rfl, fun h1 h2 h3 => ⟨twlc_jac_above_Lp f Lp Lc St C g0 g1 Fc kT hf hLp hkT h1 h2 h3, twlc_jac_above_Lc f Lp Lc St C g0 g1 Fc kT hf hLp hkT h1 h2 h3, twlc_jac_above_St f Lp Lc St C g0 g1 Fc kT hf hLp hkT h1 h2 h3, twlc_jac_above_C f Lp Lc St C g0 g1 Fc kT hf hLp hkT h1 h2 h3, twlc_jac_above_g0 f Lp Lc St C g0 g1 Fc kT hf hLp hkT h1 h2 h3, twlc_jac_above_g1 f Lp Lc St C g0 g1 Fc kT hf hLp hkT h1 h2 h3, twlc_jac_above_Fc f Lp Lc St C g0 g1 Fc kT hf hLp hkT h1 h2 h3, twlc_jac_above_kT f Lp Lc St C g0 g1 Fc kT hf hLp hkT h1 h2 h3⟩,
+   fun h1 h2 h3 => ⟨twlc_jac_below_Lp f Lp Lc St C g0 g1 Fc kT hf hLp hkT h1 h2 h3, twlc_jac_below_Lc f Lp Lc St C g0 g1 Fc kT hf hLp hkT h1 h2 h3, twlc_jac_below_St f Lp Lc St C g0 g1 Fc kT hf hLp hkT h1 h2 h3, twlc_jac_below_C f Lp Lc St C g0 g1 Fc kT hf hLp hkT h1 h2 h3, twlc_jac_below_g0 f Lp Lc St C g0 g1 Fc kT hf hLp hkT h1 h2 h3, twlc_jac_below_g1 f Lp Lc St C g0 g1 Fc kT hf hLp hkT h1 h2 h3, twlc_jac_below_Fc f Lp Lc St C g0 g1 Fc kT hf hLp hkT h1 h2 h3, twlc_jac_below_kT f Lp Lc St C g0 g1 Fc kT hf hLp hkT h1 h2 h3⟩⟩
+/-- non-vacuity at the defaults, `f = 40 > F_c = 30.6` and `f = 20 < F_c`: `g = 43`, `g = −116.8` -/
+example : (30.6:ℝ) < 40 ∧ (440:ℝ) * 1500 - (-637 + 17 * 40) * (-637 + 17 * 40) ≠ 0 ∧ (-637:ℝ) + 17 * 40 ≠ 0 ∧
+    (20:ℝ) < 30.6 ∧ (440:ℝ) * 1500 - (-637 + 17 * 30.6) * (-637 + 17 * 30.6) ≠ 0 ∧ (-637:ℝ) + 17 * 30.6 ≠ 0 := by
+  norm_num
+
 end Verif.C13
